@@ -102,6 +102,8 @@ def run(pid, tier, seed, scratch, t0):
         for k in plan.kani_groups(pid, tier):
             import kani_unit
             jobs.append(('kani', k, ex.submit(kani_unit.run_group, k, REPO, scratch.dir, tier, seed)))
+        if p.get('tables_agree'):
+            jobs.append(('tables', 'tables-agree', ex.submit(run_tables_agree)))
         if p.get('features_sweep'):
             import features_unit
             subsets = features_unit.all_subsets() if tier == 'thorough' else plan.C17_QUICK_SUBSETS
@@ -229,6 +231,31 @@ def run(pid, tier, seed, scratch, t0):
     print('OK property=%s tier=%s obligations=%d discharged=%d bounded=%d wall=%.1fs'
           % (pid, tier, len(owned), discharged, len(bounded), wall))
     return 0
+
+
+def run_tables_agree():
+    """C15, parser side: the five grammar tables agree wherever two evaluators share a token / function."""
+    T = json.load(open(os.path.join(VERIF, 'spec', 'tables.json')))['stacks']
+    bad = []
+    n = 0
+    names = sorted(T)
+    for i, a in enumerate(names):
+        for b in names[i + 1:]:
+            for key in ('prec', 'binary', 'unit_postfix', 'groups'):
+                for tok in set(T[a][key]) & set(T[b][key]):
+                    n += 1
+                    if T[a][key][tok] != T[b][key][tok]:
+                        bad.append('%s/%s: %s[%s] %r != %r' % (a, b, key, tok, T[a][key][tok], T[b][key][tok]))
+            for f in set(T[a]['functions']) & set(T[b]['functions']):
+                n += 1
+                if T[a]['functions'][f] != T[b]['functions'][f]:
+                    bad.append('%s/%s: function %s %r != %r' % (a, b, f, T[a]['functions'][f], T[b]['functions'][f]))
+    fails = [dict(fn='tables-agree', arm=None, kind='tables', text=x, message='grammar tables disagree', rendered='', owners=['C15']) for x in bad]
+    return dict(unit='tables:agree', base_unit='tables:agree', backend='table comparison', cmd='compare spec/tables.json entries pairwise',
+                obligations=[dict(name='S:c15/tables-agree', fn='tables-agree', arm=None, owners=['C15'], failures=fails,
+                                  function_label='spec/tables.json (the tables the five parser proofs refine)',
+                                  contract='%d shared table entries are identical between every pair of evaluators' % n)],
+                assumptions=[], smt_total_s=0.0)
 
 
 def run_cfg_frame():
